@@ -83,6 +83,12 @@ class ObjRun:
         self.vals = self.G["vals"]
         self.twinG0 = graphs.build(self.sc["graph"])
         self.total = float(np.ravel(self.twinG0["J"].logd(**self.vals))[0])
+        # cross-check of the reference value itself: the joint log-density is the sum of its densities' log-densities,
+        # each evaluated on its own (pristine) component object
+        comp = 0.0
+        for n_, d_ in self.twinG0["dens"].items():
+            comp += float(np.ravel(d_.logd(**{q: self.vals[q] for q in d_.get_parameter_names()}))[0])
+        self.total_components = comp
         self.pool = []
 
     # ------------------------------------------------------------------ hooks (fault injection)
@@ -294,6 +300,9 @@ class ObjRun:
         ctx = self.ctx
         G = self.G
         ctx.nontrivial = True
+        if not close(self.total, self.total_components, 1e-9):
+            ctx.violate("C01", "wrong_value", {"engine": "objhist", "obj_class": "JointDistribution", "how": "sum_of_components",
+                                               "graph": self.sc["graph"]["graph"]}, got=self.total, expected=self.total_components)
         self.add(G["J"], "joint", [], set(), "J")
         for n in G["names"]:
             if self.sc.get("components", True):
